@@ -138,6 +138,8 @@ func GenPackage(t *rapid.T, o GenOpts, nfiles, perFile int) *PackageSpec {
 			f.OddImp = 1
 		case 1:
 			f.OddImp = 2
+		case 2:
+			f.OddImp = 3
 		}
 		switch uniform(t, "timeimp", 6) {
 		case 0:
@@ -540,6 +542,8 @@ func runCase(p *PackageSpec, prop string, scn int, race bool, tag string, replay
 				Prog   string   `json:"prog"`
 				Other  []string `json:"other"`
 				Gate   bool     `json:"gate"`
+				Rdv    int      `json:"rdv"`
+				RdvE   bool     `json:"rdvempty"`
 				Goexit bool     `json:"goexit"`
 				Faults int      `json:"faults"`
 				Cancel int      `json:"cancel"`
@@ -549,6 +553,12 @@ func runCase(p *PackageSpec, prop string, scn int, race bool, tag string, replay
 				out.scenarios[ll.Prog]++
 				if ll.Gate {
 					out.scnClass[ll.Prog+"/scn:gate"]++
+				}
+				if ll.Rdv > 0 {
+					out.scnClass[ll.Prog+"/scn:rendezvous"]++
+				}
+				if ll.RdvE {
+					out.scnClass[ll.Prog+"/scn:rendezvous-empty-collection"]++
 				}
 				if ll.Goexit {
 					out.scnClass[ll.Prog+"/scn:goexit"]++
